@@ -1,5 +1,265 @@
-//! Hostile-frame injection and service probes (C15) - filled in later.
-use crate::cluster::Cluster;
+//! Hostile-frame injection and service probes (C15).
+use crate::cluster::{keypair, Cluster};
+use crate::ident;
+use crate::net::{SVC_CONSENSUS, SVC_MEMPOOL, SVC_TX};
+use crate::rng::{mix, Rng};
+use consensus::{Block, ConsensusMessage, Timeout, Vote, QC, TC};
+use crypto::{Digest, PublicKey, Signature};
+use mempool::MempoolMessage;
 
-pub fn inject(_c: &mut Cluster, _from: usize, _node: usize, _svc: u8, _gen: u64) {}
-pub fn service_probe(_c: &mut Cluster, _node: usize) {}
+fn bincode_str(s: &str) -> Vec<u8> {
+    let mut v = (s.len() as u64).to_le_bytes().to_vec();
+    v.extend_from_slice(s.as_bytes());
+    v
+}
+
+/// Raw bincode of `ConsensusMessage::SyncRequest(digest, <origin as an arbitrary string>)`.
+fn sync_request_with_origin_string(d: &Digest, origin: &str) -> Vec<u8> {
+    let mut v = 4u32.to_le_bytes().to_vec();
+    v.extend_from_slice(&d.0);
+    v.extend_from_slice(&bincode_str(origin));
+    v
+}
+
+fn batch_request_with_origin_string(ds: &[Digest], origin: &str) -> Vec<u8> {
+    let mut v = 1u32.to_le_bytes().to_vec();
+    v.extend_from_slice(&(ds.len() as u64).to_le_bytes());
+    for d in ds {
+        v.extend_from_slice(&d.0);
+    }
+    v.extend_from_slice(&bincode_str(origin));
+    v
+}
+
+fn conn(c: &mut Cluster, from: usize, node: usize, svc: u8) -> Option<usize> {
+    if let Some(k) = c.hostile_conns.get(&(from, node, svc)) {
+        if c.net.conn_alive(*k) {
+            return Some(*k);
+        }
+    }
+    match c.net.h_connect(from, node, svc) {
+        Ok(k) => {
+            c.hostile_conns.insert((from, node, svc), k);
+            Some(k)
+        }
+        Err(_) => None,
+    }
+}
+
+fn stored_key(c: &Cluster, node: usize, want_batch: bool, r: &mut Rng) -> Option<Digest> {
+    let o = c.obs.lock().unwrap();
+    let mut keys: Vec<Digest> = o.nodes[node]
+        .store
+        .iter()
+        .filter(|(k, (_, vh, _))| k.len() == 32 && ((k.as_slice() == vh.0) == want_batch))
+        .map(|(k, _)| {
+            let mut d = [0u8; 32];
+            d.copy_from_slice(k);
+            Digest(d)
+        })
+        .collect();
+    keys.sort();
+    if keys.is_empty() {
+        None
+    } else {
+        Some(keys[r.below(keys.len())].clone())
+    }
+}
+
+pub fn inject(c: &mut Cluster, from: usize, node: usize, svc: u8, gen: u64) {
+    let mut r = Rng::new(mix(&[c.sc.seed, 4242, gen]));
+    let byz = c.sc.byz.first().cloned();
+    let member = c.names[(node + 1) % c.sc.n];
+    let kind = match svc {
+        SVC_CONSENSUS => *r.pick(&[0u32, 1, 2, 3, 4, 5, 6, 10, 11, 11, 12, 12, 13, 14, 15, 16, 17, 18, 19, 20]),
+        SVC_MEMPOOL => *r.pick(&[0u32, 1, 2, 3, 4, 5, 6, 30, 30, 31, 32, 33, 34, 34]),
+        _ => *r.pick(&[0u32, 1, 2, 3, 40, 40, 41]),
+    };
+    let recent: Vec<Vec<u8>> = c.recent_frames.get(&svc).cloned().unwrap_or_default();
+    let k = match conn(c, from, node, svc) {
+        Some(k) => k,
+        None => return,
+    };
+    c.obs.lock().unwrap().probe(&format!("hostile.kind{}", kind));
+    c.net.count_fault("hostile-frame");
+    let mut frame: Option<Vec<u8>> = None;
+    let mut raw: Option<Vec<u8>> = None;
+    let mut close_after = false;
+    match kind {
+        0 | 40 => frame = Some(Vec::new()),
+        1 => frame = Some((0..r.range(1, 200)).map(|_| r.next() as u8).collect()),
+        2 => {
+            let mut v = (9u32 * 1024 * 1024 + r.range(0, 1000) as u32).to_be_bytes().to_vec();
+            v.extend((0..64).map(|_| r.next() as u8));
+            raw = Some(v);
+        }
+        3 => {
+            let mut v = 100u32.to_be_bytes().to_vec();
+            v.extend((0..10).map(|_| r.next() as u8));
+            raw = Some(v);
+            close_after = true;
+        }
+        4 | 5 | 6 => {
+            if !recent.is_empty() {
+                let mut f = recent[r.below(recent.len())].clone();
+                match kind {
+                    4 => {
+                        for _ in 0..r.range(1, 4) {
+                            if !f.is_empty() {
+                                let i = r.below(f.len());
+                                f[i] ^= 1 << r.below(8);
+                            }
+                        }
+                    }
+                    5 => {
+                        let n = r.below(f.len().max(1));
+                        f.truncate(n);
+                    }
+                    _ => f.extend((0..r.range(1, 40)).map(|_| r.next() as u8)),
+                }
+                frame = Some(f);
+            }
+        }
+        10 => frame = Some(bincode::serialize(&ConsensusMessage::SyncRequest(ident::bytes_digest(&r.next().to_le_bytes()), member)).unwrap()),
+        11 => {
+            // A sync request naming a key of the OTHER component in the shared store (a batch).
+            if let Some(d) = stored_key(c, node, true, &mut r) {
+                frame = Some(bincode::serialize(&ConsensusMessage::SyncRequest(d, member)).unwrap());
+                c.obs.lock().unwrap().probe("hostile.sync-request-for-batch-key");
+            }
+        }
+        12 => {
+            // Origin key whose base64 text decodes to fewer than 32 bytes.
+            let short = base64::encode(&vec![7u8; r.range(0, 31) as usize]);
+            frame = Some(sync_request_with_origin_string(&Digest::default(), &short));
+        }
+        13 => frame = Some(sync_request_with_origin_string(&Digest::default(), "!!! not base64 !!!")),
+        14 => {
+            let mut v = 9u32.to_le_bytes().to_vec();
+            v.extend((0..40).map(|_| r.next() as u8));
+            frame = Some(v);
+        }
+        15 => {
+            // Propose whose QC claims 2^60 votes.
+            let mut v = 0u32.to_le_bytes().to_vec();
+            v.extend_from_slice(&[0u8; 32]);
+            v.extend_from_slice(&0u64.to_le_bytes());
+            v.extend_from_slice(&(1u64 << 60).to_le_bytes());
+            frame = Some(v);
+        }
+        16 | 17 | 18 | 19 | 20 => {
+            if let Some(b) = byz {
+                let (_, sk) = keypair(c.sc.seed, b);
+                let name = c.names[b];
+                let m = match kind {
+                    16 => {
+                        let h = ident::bytes_digest(b"x");
+                        ConsensusMessage::Vote(Vote { hash: h.clone(), round: u64::MAX, author: name, signature: Signature::new(&ident::vote_digest(&h, u64::MAX), &sk) })
+                    }
+                    17 => ConsensusMessage::Timeout(Timeout { high_qc: QC::genesis(), round: u64::MAX, author: name, signature: Signature::new(&ident::timeout_digest(u64::MAX, 0), &sk) }),
+                    18 => {
+                        // A far-future round that this authority leads, on top of genesis.
+                        let members = c.obs.lock().unwrap().members.clone();
+                        let mut round = u64::MAX - 16;
+                        while members.leader_index(round) != b {
+                            round += 1;
+                        }
+                        let mut blk = Block { qc: QC::genesis(), tc: None, author: name, round, payload: vec![], signature: Signature::default() };
+                        blk.signature = Signature::new(&ident::block_digest(&blk), &sk);
+                        ConsensusMessage::Propose(blk)
+                    }
+                    19 => ConsensusMessage::TC(TC { round: r.range(0, 1_000_000), votes: vec![] }),
+                    _ => {
+                        // A correctly signed block whose payload names a consensus block's key.
+                        let members = c.obs.lock().unwrap().members.clone();
+                        let base = c.obs.lock().unwrap().max_round_seen + 1;
+                        let mut round = base;
+                        while members.leader_index(round) != b {
+                            round += 1;
+                        }
+                        let payload = stored_key(c, node, false, &mut r).map(|d| vec![d]).unwrap_or_default();
+                        let mut blk = Block { qc: QC::genesis(), tc: None, author: name, round, payload, signature: Signature::default() };
+                        blk.signature = Signature::new(&ident::block_digest(&blk), &sk);
+                        ConsensusMessage::Propose(blk)
+                    }
+                };
+                frame = Some(bincode::serialize(&m).unwrap());
+            }
+        }
+        30 => {
+            // A batch request naming a consensus block's key in the shared store.
+            if let Some(d) = stored_key(c, node, false, &mut r) {
+                frame = Some(bincode::serialize(&MempoolMessage::BatchRequest(vec![d], member)).unwrap());
+                c.obs.lock().unwrap().probe("hostile.batch-request-for-block-key");
+            }
+        }
+        31 => {
+            let (pk, _) = keypair(c.sc.seed, 900 + (gen % 50) as usize);
+            frame = Some(bincode::serialize(&MempoolMessage::BatchRequest(vec![Digest::default()], pk)).unwrap());
+        }
+        32 => {
+            let mut v = 1u32.to_le_bytes().to_vec();
+            v.extend_from_slice(&(1u64 << 59).to_le_bytes());
+            frame = Some(v);
+        }
+        33 => {
+            let mut v = 0u32.to_le_bytes().to_vec();
+            v.extend_from_slice(&(1u64 << 58).to_le_bytes());
+            frame = Some(v);
+        }
+        34 => {
+            let short = base64::encode(&vec![9u8; r.range(0, 31) as usize]);
+            frame = Some(batch_request_with_origin_string(&[Digest::default()], &short));
+        }
+        41 => frame = Some((0..(1 << 20)).map(|i| (i as u8).wrapping_mul(31)).collect()),
+        _ => {}
+    }
+    if let Some(f) = frame {
+        let _ = c.net.h_send_frame(k, true, &f);
+    }
+    if let Some(v) = raw {
+        let _ = c.net.h_send_raw(k, true, &v);
+        c.hostile_conns.remove(&(from, node, svc));
+        if close_after {
+            c.net.h_close(k, true);
+        }
+    }
+    let _ = PublicKey::default();
+}
+
+/// Functional probes of the node's services; the answers are looked for on the tap.
+pub fn service_probe(c: &mut Cluster, node: usize) {
+    let mut r = Rng::new(mix(&[c.sc.seed, 4343, node as u64, c.net.now_us()]));
+    let byz = match c.sc.byz.first() {
+        Some(b) => *b,
+        None => return,
+    };
+    let now = c.net.now_us();
+    let origin = c.names[byz];
+    let from = crate::cluster::CLIENT_BASE + 20;
+    // (b) block sync request.
+    if let Some(d) = stored_key(c, node, false, &mut r) {
+        if let Some(k) = conn(c, from, node, SVC_CONSENSUS) {
+            let m = bincode::serialize(&ConsensusMessage::SyncRequest(d.clone(), origin)).unwrap();
+            let _ = c.net.h_send_frame(k, true, &m);
+            c.obs.lock().unwrap().ext.service_probes.push(crate::monitors::ServiceProbe { kind: 'b', node, to: byz, digest: d, tx: Vec::new(), t_us: now, answered: false });
+        }
+    }
+    // (c) batch request.
+    if let Some(d) = stored_key(c, node, true, &mut r) {
+        if let Some(k) = conn(c, from, node, SVC_MEMPOOL) {
+            let m = bincode::serialize(&MempoolMessage::BatchRequest(vec![d.clone()], origin)).unwrap();
+            let _ = c.net.h_send_frame(k, true, &m);
+            c.obs.lock().unwrap().ext.service_probes.push(crate::monitors::ServiceProbe { kind: 'm', node, to: byz, digest: d, tx: Vec::new(), t_us: now, answered: false });
+        }
+    }
+    // (d) a fresh client transaction must end up in a batch on the wire.
+    let tx = Cluster::tx_bytes(48, 9, mix(&[c.sc.seed, 4444, node as u64, now]));
+    if let Some(k) = conn(c, from + 1, node, SVC_TX) {
+        let _ = c.net.h_send_frame(k, true, &tx);
+        c.obs.lock().unwrap().ext.service_probes.push(crate::monitors::ServiceProbe { kind: 't', node, to: 0, digest: Digest::default(), tx, t_us: now, answered: false });
+    }
+    // (a) proposals still processed: the node's commits must go on after this instant.
+    c.obs.lock().unwrap().ext.service_probes.push(crate::monitors::ServiceProbe { kind: 'c', node, to: 0, digest: Digest::default(), tx: Vec::new(), t_us: now, answered: false });
+    c.obs.lock().unwrap().probe("C15.service-probe");
+}
